@@ -16,10 +16,11 @@ from .common import Check
 RULE = ("deterministic boundary corpus (every tie pattern of start/end instants of two events on a 0..2 s "
         "grid, second bucket holding the same instants, limit-1 read + replace_last, delete-newest + insert, "
         "bulk upsert, bucket delete + re-create; bulk calls with lists of 0, 1, 2, 3 elements in every mix of "
-        "upserts and plain inserts), each on BOTH layers (calls on the storage object; calls through the public "
+        "upserts and plain inserts; every read before and after every kind of write, twice in a row), each on BOTH layers (calls on the storage object; calls through the public "
         "Datastore / Bucket API), then seeded random well-formed histories of 1-40 ops over 1-3 "
         "buckets with timestamps from a pool of 4-6 values, alternating between the two layers, the event handed "
-        "to replace / replace_last carrying a live id of its own in half of the calls, one history in five passing "
+        "to replace / replace_last carrying a live id of its own in half of the calls, a quarter of the writes followed "
+        "straight by a read of that bucket (count / by id / limit 1 / metadata), one history in five passing "
         "Event objects a second time; every history is run on memory, sqlite (temp file) "
         "and peewee (temp file); non-trivial = a run in which a replace/replace_last/delete/upsert succeeded on "
         "a bucket holding two or more events")
@@ -236,7 +237,7 @@ def main(argv=None):
     # layers (storage object; public API = Datastore / Bucket), the random histories alternate
     n_random = 900 if ck.tier == "quick" else 45000
     hists = [(sym, univ, None, layer) for layer in sh.LAYERS
-             for sym, univ in sh.boundary_histories() + sh.bulk_boundary_histories()]
+             for sym, univ in sh.boundary_histories() + sh.bulk_boundary_histories() + sh.read_write_read_histories()]
     for i in range(n_random):
         sym, univ = sh.gen_history(ck.rng, malformed=False, reuse=0.3 if i % 5 == 4 else 0.0)
         hists.append((sym, univ, None, sh.LAYERS[i % 2]))
